@@ -217,12 +217,14 @@ Theorem C17_flow_create_alter_context_model : forall pv all ids fl tk,
 Proof. exact create_alter_pdu_is_model. Qed.
 Print Assumptions C17_flow_create_alter_context_model.
 
-(* AuthenticationProvider.step: the level-6 trailer (Conversation.step_trailer) around the security context's next token *)
-Theorem C17_flow_auth_step : forall wrap unwrap sch fuel ap tok sig_len,
+(* AuthenticationProvider.step: the level-6 trailer (Conversation.step_trailer) around the security context's next token; step_trailer
+   reads only the provider id of its provider argument, so: for every model provider pv whose id is self.provider *)
+Theorem C17_flow_auth_step : forall wrap unwrap sch fuel ap tok pv,
+  pv_type pv = ap_provider ap ->
   run (WC wrap unwrap sch) fuel k_flow_auth_step [VO (OAuthP ap); optbv tok]
   = match ap_legs ap with
     | [] => Raise KeyError
-    | l :: _ => Ok (VO (OSt (step_trailer {| pv_type := ap_provider ap; pv_sig_len := sig_len |} (leg_token l))))
+    | l :: _ => Ok (VO (OSt (step_trailer pv (leg_token l))))
     end.
 Proof. exact flow_auth_step. Qed.
 Print Assumptions C17_flow_auth_step.
